@@ -16,6 +16,7 @@ open Romfs
 open Ncsd
 open Sd
 open Ivfc
+open IvfcWrite
 open Driver_base
 
 let opt f = function None -> "-" | Some x -> f x
@@ -240,6 +241,21 @@ let run_ivfc toks =
       (run_blocks sha256 tree master rq cempty))
   | _ -> failwith "ivfc args"
 
+(* ivfcw <bs1..bs4> <L1..L4> <master> off,hex ...  ->  L1 L2 L3 L4 master *)
+let run_ivfcw toks =
+  match toks with
+  | b1 :: b2 :: b3 :: b4 :: l1 :: l2 :: l3 :: l4 :: mh :: ws ->
+    let lv d b = { lv_data = bytes_of_hex d; lv_bs = z_of_hex b } in
+    let tree = [lv l1 b1; lv l2 b2; lv l3 b3; lv l4 b4] in
+    let rec chunks l = match l with [] -> [] | _ ->
+      let rec take n l = if n = 0 then ([], l) else match l with [] -> ([], []) | x :: r -> let (a, b) = take (n - 1) r in (x :: a, b) in
+      let (h, r) = take 32 l in h :: chunks r in
+    let master = chunks (bytes_of_hex mh) in
+    let (t, m) = Stdlib.List.fold_left (fun (t, m) w -> match String.split_on_char ',' w with
+      | [o; d] -> write_level sha256 (nat_of_int 3) (z_of_hex o) (bytes_of_hex d) t m | _ -> failwith "write") (tree, master) ws in
+    String.concat " " (Stdlib.List.map (fun l -> hex_of_bytes l.lv_data) t) ^ " " ^ hex_of_bytes (Stdlib.List.concat m)
+  | _ -> failwith "ivfcw args"
+
 let dispatch (line : string) : string =
   match String.split_on_char ' ' (String.trim line) with
   | "engine" :: toks -> run_engine toks
@@ -254,6 +270,7 @@ let dispatch (line : string) : string =
   | "ncsd" :: toks -> run_ncsd toks
   | "sdkey" :: toks -> run_sdkey toks
   | "ivfc" :: toks -> run_ivfc toks
+  | "ivfcw" :: toks -> run_ivfcw toks
   | e :: _ -> failwith ("unknown entry " ^ e)
   | [] -> ""
 
